@@ -154,6 +154,9 @@ def run(ctx):
                 k = strip_generics(clp)
                 if k in prog.by_key:
                     worker = prog.by_key[k][0]
+    pc_et = path_count(ex, [bb for bb, _ in et])
+    ctx.ob("R2.call-count-shape", "dispatch-on-every-path", pc_et == (1, 1), ex.loc(),
+           f"ThreadPool::execute_task calls per normal path of execute_on: {pc_et} (every iteration count, including 0, must reach every pool thread)")
     if worker is None:
         ctx.missing("R2.call-count-shape", "the closure passed to ThreadPool::execute_task")
         return
